@@ -63,10 +63,13 @@ Proof.
   - destruct (mem x (snd a)); [|discriminate]. inversion H; subst; exact Hz.
   - discriminate.
   - discriminate.
+  - discriminate.
   - destruct e; try discriminate.
     + destruct (fst a); [discriminate|]. destruct (lookup P f); [|discriminate]. inversion H; subst. exact Hz.
     + destruct (mem x (snd a)); [|discriminate]. destruct (lookup P f); [|discriminate]. inversion H; subst. exact Hz.
     + destruct (lookup P f) as [[[|] ?]|]; try discriminate. inversion H; subst. exact Hz.
+    + destruct (mem x (snd a)); [|discriminate]. destruct (lookup P f); [|discriminate]. inversion H; subst. exact Hz.
+    + destruct (fst a); [discriminate|]. destruct (lookup P f); [|discriminate]. inversion H; subst. exact Hz.
   - destruct (check P c1 a) as [a1|] eqn:E1; [|discriminate]. eapply IHc2; [exact H|]. eapply IHc1; [exact E1|exact Hz].
   - destruct (check P c1 a) as [a1|] eqn:E1; [|discriminate].
     destruct (check P c2 a) as [a2|] eqn:E2; [|discriminate]. inversion H; subst. cbn [snd].
@@ -101,7 +104,7 @@ Variable P : program.
 Hypothesis Hall : forall f k c, lookup P f = Some (k, c) -> exists a', check P c (start k) = Some a'.
 
 Notation exec := (exec gstate next rs_new py_fallback rs_new32 decide P).
-Notation aexec := (aexec gstate next decide P).
+Notation aexec := (aexec gstate next rs_new py_fallback rs_new32 decide P).
 Notation mk := (mk gstate rs_new py_fallback rs_new32).
 Notation get_rng := (get_rng gstate rs_new py_fallback rs_new32).
 Notation draw := (draw gstate next decide).
@@ -120,10 +123,10 @@ Definition binds (B : list var) (fr : frame) (r : nat) : Prop :=
 (* the invariant tying a frame of the real machine to the reference machine's single stream g *)
 Definition Core (n0 : nat) (a : astate) (fr : frame) (st : state) (g : gstate) : Prop :=
   match target (seedv fr) with
-  | Some r => heap st r = g /\ binds (snd a) fr r
+  | Some r => r < nxt st /\ heap st r = g /\ binds (snd a) fr r
   | None =>
       match seedv fr with
-      | VInt s => if fst a then snd a = [] \/ exists r, n0 <= r /\ binds (snd a) fr r /\ heap st r = g
+      | VInt s => if fst a then snd a = [] \/ exists r, (n0 <= r /\ r < nxt st) /\ binds (snd a) fr r /\ heap st r = g
                   else g = mk s
       | _ => False
       end
@@ -154,7 +157,7 @@ Proof.
   intros n0 [u B] [u' B'] fr st g (Hn & Hwf & Hc) Hu Hs Hwf'. cbn [fst snd] in *.
   split; [exact Hn|]. split; [exact Hwf'|]. unfold Core in *. cbn [fst snd] in *.
   destruct (target (seedv fr)) as [r|].
-  - destruct Hc as [Hh Hb]. split; [exact Hh|]. eapply binds_sub; eauto.
+  - destruct Hc as (Hr & Hh & Hb). split; [exact Hr|]. split; [exact Hh|]. eapply binds_sub; eauto.
   - destruct (seedv fr); try exact Hc.
     destruct u.
     + rewrite (Hu eq_refl). destruct Hc as [Hc|[r (Hr & Hb & Hh)]].
@@ -175,6 +178,25 @@ Proof.
   intros [|k] c m H; cbn.
   - unfold astop. destruct (astatus m); [contradiction H; reflexivity|reflexivity|reflexivity].
   - destruct (astatus m); [contradiction H; reflexivity|reflexivity|reflexivity].
+Qed.
+
+Lemma exec_nxt_mono : forall fuel c fr st, nxt st <= nxt (snd (exec fuel c fr st)).
+Proof.
+  induction fuel as [|k IH]; intros c fr st.
+  - cbn. unfold stop. destruct (status st); cbn; lia.
+  - cbn [EffectLang.exec]. destruct (status st); [|cbn; lia|cbn; lia].
+    destruct c as [|x e|x| | | |f e|c1 c2|c1 c2|c1].
+    + cbn; lia.
+    + cbn [fst snd]. destruct (eval gstate decide e fr st); cbn; lia.
+    + destruct (env fr x); cbn; lia.
+    + cbn; lia.
+    + cbn; lia.
+    + cbn; lia.
+    + destruct (lookup P f) as [[? body]|]; cbn [fst snd]; [apply IH|cbn; lia].
+    + cbn zeta. etransitivity; [apply (IH c1 fr st)|apply IH].
+    + cbn zeta. destruct (Nat.eqb _ 0); (etransitivity; [|apply IH]); cbn; lia.
+    + cbn zeta. destruct (Nat.eqb _ 0); [cbn; lia|].
+      etransitivity; [|apply IH]. etransitivity; [|apply IH]. cbn; lia.
 Qed.
 
 Lemma agree_record : forall e st m, agree st m -> agree (record gstate e st) (arecord gstate e m).
@@ -201,7 +223,8 @@ Proof.
     + discriminate.
     + discriminate.
     + discriminate.
-    + destruct e; try discriminate.
+    + discriminate.
+    + destruct e; try discriminate. cbn [derived].
       destruct (lookup P f) as [[[|] body]|] eqn:El; try discriminate. inversion Hc; subst.
       destruct (Hall _ _ _ El) as [a1 Ha1]. cbn [start] in Ha1.
       destruct (IH body (new_frame (eval gstate decide ENone fr st)) st m a1 Ha1 Hag) as (_ & H1 & H2 & H3 & H4).
@@ -249,6 +272,55 @@ Proof. intros B1 B2 ->. reflexivity. Qed.
 Lemma inter_nil_r : forall B1 B2, B2 = [] -> inter B1 B2 = [].
 Proof. intros B1 B2 ->. apply sub_nil. intros x H. apply inter_mem in H. apply H. Qed.
 
+(* what [exec_refines] states for one amount of fuel (its induction hypothesis) *)
+Definition refines_at (k : nat) : Prop :=
+  forall c fr st m a a' n0,
+  check P c a = Some a' ->
+  agree st m ->
+  (status st = Running -> Inv n0 a fr st (ag m)) ->
+  agree (snd (exec k c fr st)) (aexec k c m) /\
+  (status (snd (exec k c fr st)) = Running ->
+     Inv n0 a' (fst (exec k c fr st)) (snd (exec k c fr st)) (ag (aexec k c m))) /\
+  seedv (fst (exec k c fr st)) = seedv fr /\
+  (forall o, o < n0 -> target (seedv fr) <> Some o -> heap (snd (exec k c fr st)) o = heap st o).
+
+(* a call whose seed is a number computed from the history: the callee refines the reference machine
+   on the fresh stream of that number, touches no object that existed before the call, and the
+   caller's invariant (which speaks of older objects only) survives *)
+Lemma sub_call : forall k, refines_at k ->
+  forall f kd body fr st m a n0,
+  lookup P f = Some (kd, body) -> agree st m -> status st = Running -> astatus m = Running ->
+  n0 <= nxt st -> (fst a = false -> snd a = []) -> Core n0 a fr st (ag m) ->
+  let st' := snd (exec k body (new_frame (VInt (decide (hist st)))) st) in
+  let m1 := aexec k body (mkA (mk (decide (ahist m))) (ahist m) Running) in
+  let m' := mkA (ag m) (ahist m1) (astatus m1) in
+  agree st' m' /\ (status st' = Running -> Inv n0 a fr st' (ag m')) /\ seedv fr = seedv fr /\
+  (forall o, o < n0 -> target (seedv fr) <> Some o -> heap st' o = heap st o).
+Proof.
+  intros k IH f kd body fr st m a n0 El Hag Est Ham Hn Hwf Hcore st' m1 m'.
+  destruct Hag as [Hh Hs]. destruct (Hall _ _ _ El) as [a1 Ha1].
+  set (m0 := mkA (mk (decide (ahist m))) (ahist m) Running) in *.
+  assert (Hag0 : agree st m0) by (split; [exact Hh|cbn; exact Est]).
+  assert (HI' : Inv (nxt st) (start kd) (new_frame (VInt (decide (hist st)))) st (ag m0)).
+  { split; [apply le_n|]. split; [destruct kd; reflexivity|]. unfold Core. cbn [new_frame seedv target].
+    destruct kd; cbn [start fst snd]; [rewrite Hh; reflexivity|left; reflexivity]. }
+  destruct (IH body (new_frame (VInt (decide (hist st)))) st m0 (start kd) a1 (nxt st) Ha1 Hag0 (fun _ => HI')) as (G1 & G2 & G3 & G4).
+  pose proof (exec_nxt_mono k body (new_frame (VInt (decide (hist st)))) st) as Hmono.
+  fold st' in G1, G2, G4, Hmono. fold m1 in G1, G2.
+  assert (Hold : forall o, o < nxt st -> heap st' o = heap st o).
+  { intros o Ho. apply G4; [exact Ho|]. cbn. discriminate. }
+  split; [destruct G1 as [G1a G1b]; split; cbn [ahist astatus]; assumption|].
+  split.
+  { intros HR. split; [lia|]. split; [exact Hwf|]. unfold Core in *. cbn [ag].
+    destruct (target (seedv fr)) as [r|] eqn:Ht.
+    - destruct Hcore as (Hrn & Hg & Hb). split; [lia|]. split; [|exact Hb]. rewrite Hold; [exact Hg|exact Hrn].
+    - destruct (seedv fr) eqn:Hv; try contradiction. destruct (fst a) eqn:Hu; [|exact Hcore].
+      destruct Hcore as [He|[r (Hr & Hb & Hg)]]; [left; exact He|]. right. exists r.
+      split; [lia|]. split; [exact Hb|]. rewrite Hold; [exact Hg|lia]. }
+  split; [reflexivity|].
+  intros o Ho _. apply Hold. lia.
+Qed.
+
 (* (2) refinement of the reference machine + footprint *)
 Lemma exec_refines : forall fuel c fr st m a a' n0,
   check P c a = Some a' ->
@@ -278,16 +350,16 @@ Proof.
         destruct a as [u B]; cbn [fst snd] in *. destruct u; [discriminate|]. inversion Hc; subst a'.
         rewrite (Hwf eq_refl) in *. cbn [eval]. unfold Core in Hcore. cbn [fst snd] in Hcore.
         destruct (target (seedv fr)) as [r|] eqn:Ht.
-        -- rewrite (get_rng_target _ _ st Ht). cbn [fst snd]. destruct Hcore as [Hg Hb].
+        -- rewrite (get_rng_target _ _ st Ht). cbn [fst snd]. destruct Hcore as (Hrn & Hg & Hb).
            split; [exact Hag|]. split.
            { intros _. split; [exact Hn|]. split; [intros HF; discriminate HF|].
-             unfold Core. cbn [bind seedv fst snd]. rewrite Ht. split; [exact Hg|apply binds_bind; exact Hb]. }
+             unfold Core. cbn [bind seedv fst snd]. rewrite Ht. split; [exact Hrn|]. split; [exact Hg|apply binds_bind; exact Hb]. }
            split; reflexivity.
         -- destruct (seedv fr) eqn:Hv; try contradiction. cbn [EffectLang.get_rng fst snd].
            split; [split; cbn; congruence|]. split.
            { intros _. split; [cbn; lia|]. split; [intros HF; discriminate HF|].
              unfold Core. cbn [bind seedv fst snd]. rewrite Hv. cbn [target]. right. exists (nxt st).
-             split; [exact Hn|]. split; [apply binds_bind; apply binds_nil|].
+             split; [split; [exact Hn|cbn; lia]|]. split; [apply binds_bind; apply binds_nil|].
              cbn [heap]. unfold upd. rewrite Nat.eqb_refl. symmetry. exact Hcore. }
            split; [cbn; exact Hv|]. intros o Ho _. cbn [heap]. unfold upd.
            destruct (Nat.eqb_spec o (nxt st)); [lia|reflexivity].
@@ -296,10 +368,10 @@ Proof.
         assert (Hu : fst a = true).
         { destruct (fst a) eqn:Hu; [reflexivity|]. rewrite (Hwf eq_refl) in Hm. discriminate Hm. }
         unfold Core in Hcore. destruct (target (seedv fr)) as [r|] eqn:Ht.
-        -- destruct Hcore as [Hg Hb]. rewrite (Hb _ Hm). cbn [EffectLang.get_rng fst snd].
+        -- destruct Hcore as (Hrn & Hg & Hb). rewrite (Hb _ Hm). cbn [EffectLang.get_rng fst snd].
            split; [exact Hag|]. split.
            { intros _. split; [exact Hn|]. split; [cbn [fst snd]; intros HF; congruence|].
-             unfold Core. cbn [bind seedv fst snd]. rewrite Ht. split; [exact Hg|apply binds_bind; exact Hb]. }
+             unfold Core. cbn [bind seedv fst snd]. rewrite Ht. split; [exact Hrn|]. split; [exact Hg|apply binds_bind; exact Hb]. }
            split; reflexivity.
         -- destruct (seedv fr) eqn:Hv; try contradiction. rewrite Hu in Hcore.
            destruct Hcore as [He|[r (Hr & Hb & Hg)]]; [rewrite He in Hm; discriminate Hm|].
@@ -314,24 +386,25 @@ Proof.
       assert (Hu : fst a = true).
       { destruct (fst a) eqn:Hu; [reflexivity|]. rewrite (Hwf eq_refl) in Hm. discriminate Hm. }
       unfold Core in Hcore. destruct (target (seedv fr)) as [r|] eqn:Ht.
-      * destruct Hcore as [Hg Hb]. rewrite (Hb _ Hm). cbn [EffectLang.draw]. unfold EffectLang.adraw.
+      * destruct Hcore as (Hrn & Hg & Hb). rewrite (Hb _ Hm). cbn [EffectLang.draw]. unfold EffectLang.adraw.
         rewrite Hg, Hh. split; [split; cbn; [reflexivity|congruence]|]. split.
-        { intros _. split; [exact Hn|]. split; [exact Hwf|]. unfold Core. rewrite Ht. cbn [heap ag].
-          split; [unfold upd; rewrite Nat.eqb_refl; reflexivity|exact Hb]. }
+        { intros _. split; [exact Hn|]. split; [exact Hwf|]. unfold Core. rewrite Ht. cbn [heap ag nxt].
+          split; [exact Hrn|]. split; [unfold upd; rewrite Nat.eqb_refl; reflexivity|exact Hb]. }
         split; [reflexivity|]. intros o Ho Hne. cbn [heap]. unfold upd.
         destruct (Nat.eqb_spec o r); [subst o; contradiction Hne; reflexivity|reflexivity].
       * destruct (seedv fr) eqn:Hv; try contradiction. rewrite Hu in Hcore.
         destruct Hcore as [He|[r (Hr & Hb & Hg)]]; [rewrite He in Hm; discriminate Hm|].
         rewrite (Hb _ Hm). cbn [EffectLang.draw]. unfold EffectLang.adraw.
         rewrite Hg, Hh. split; [split; cbn; [reflexivity|congruence]|]. split.
-        { intros _. split; [exact Hn|]. split; [exact Hwf|]. unfold Core. rewrite Hv, Hu. cbn [target heap ag].
+        { intros _. split; [exact Hn|]. split; [exact Hwf|]. unfold Core. rewrite Hv, Hu. cbn [target heap ag nxt].
           right. exists r. split; [exact Hr|]. split; [exact Hb|]. unfold upd. rewrite Nat.eqb_refl. reflexivity. }
         split; [reflexivity|]. intros o Ho _. cbn [heap]. unfold upd.
         destruct (Nat.eqb_spec o r); [lia|reflexivity].
     + discriminate.
     + discriminate.
+    + discriminate.
     + (* Call *)
-      destruct e; try discriminate.
+      destruct e; try discriminate; cbn [derived].
       * (* f(..., seed=seed): the raw seed is handed on *)
         destruct a as [u B]; cbn [fst snd] in *. destruct u; [discriminate|].
         destruct (lookup P f) as [[kd body]|] eqn:El; [|discriminate]. inversion Hc; subst a'.
@@ -339,13 +412,13 @@ Proof.
         assert (HI' : Inv n0 (start kd) (new_frame (seedv fr)) st (ag m)).
         { split; [exact Hn|]. split; [destruct kd; reflexivity|].
           unfold Core in *. cbn [new_frame seedv fst snd] in *. destruct (target (seedv fr)) as [r|].
-          - split; [apply Hcore|]. destruct kd; apply binds_nil.
+          - split; [apply Hcore|]. split; [apply Hcore|]. destruct kd; apply binds_nil.
           - destruct (seedv fr); try contradiction. destruct kd; cbn [start fst snd]; [exact Hcore|left; reflexivity]. }
         destruct (IH body (new_frame (seedv fr)) st m (start kd) a1 n0 Ha1 Hag (fun _ => HI')) as (G1 & G2 & G3 & G4).
         cbn [fst snd]. split; [exact G1|]. split.
         { intros HR. destruct (G2 HR) as (Gn & Gwf & Gc). split; [exact Gn|]. split; [intros HF; discriminate HF|].
           unfold Core in *. rewrite G3 in Gc. cbn [new_frame seedv fst snd] in *.
-          destruct (target (seedv fr)) as [r|]; [split; [apply Gc|apply binds_nil]|].
+          destruct (target (seedv fr)) as [r|]; [split; [apply Gc|split; [apply Gc|apply binds_nil]]|].
           destruct (seedv fr); try contradiction. left; reflexivity. }
         split; [reflexivity|]. exact G4.
       * (* f(..., seed=rng) *)
@@ -354,27 +427,29 @@ Proof.
         destruct (Hall _ _ _ El) as [a1 Ha1]. cbn [eval].
         assert (Hu : fst a = true).
         { destruct (fst a) eqn:Hu; [reflexivity|]. rewrite (Hwf eq_refl) in Hm. discriminate Hm. }
-        assert (Hr : exists r, env fr x = VObj r /\ heap st r = ag m /\
+        assert (Hr : exists r, env fr x = VObj r /\ heap st r = ag m /\ r < nxt st /\
                      (forall o, o < n0 -> target (seedv fr) <> Some o -> o <> r) /\
-                     (forall (st' : state) g', n0 <= nxt st' -> heap st' r = g' -> Inv n0 a fr st' g')).
+                     (forall (st' : state) g', nxt st <= nxt st' -> heap st' r = g' -> Inv n0 a fr st' g')).
         { unfold Core in Hcore. destruct (target (seedv fr)) as [r|] eqn:Ht.
-          - destruct Hcore as [Hg Hb]. exists r. split; [exact (Hb _ Hm)|]. split; [exact Hg|]. split.
+          - destruct Hcore as (Hrn & Hg & Hb). exists r. split; [exact (Hb _ Hm)|]. split; [exact Hg|]. split; [exact Hrn|]. split.
             + intros o _ Hne Heq. subst o. contradiction Hne; reflexivity.
-            + intros st' g' Hn' Hg'. split; [exact Hn'|]. split; [exact Hwf|]. unfold Core. rewrite Ht. split; assumption.
+            + intros st' g' Hn' Hg'. split; [lia|]. split; [exact Hwf|]. unfold Core. rewrite Ht.
+              split; [lia|]. split; assumption.
           - destruct (seedv fr) eqn:Hv; try contradiction. rewrite Hu in Hcore.
             destruct Hcore as [He|[r (Hr & Hb & Hg)]]; [rewrite He in Hm; discriminate Hm|].
-            exists r. split; [exact (Hb _ Hm)|]. split; [exact Hg|]. split.
+            exists r. split; [exact (Hb _ Hm)|]. split; [exact Hg|]. split; [lia|]. split.
             + intros o Ho _. lia.
-            + intros st' g' Hn' Hg'. split; [exact Hn'|]. split; [exact Hwf|]. unfold Core. rewrite Hv, Hu. cbn [target].
-              right. exists r. split; [exact Hr|]. split; assumption. }
-        destruct Hr as (r & Hx & Hg & Hfoot & Hback). rewrite Hx.
+            + intros st' g' Hn' Hg'. split; [lia|]. split; [exact Hwf|]. unfold Core. rewrite Hv, Hu. cbn [target].
+              right. exists r. split; [lia|]. split; assumption. }
+        destruct Hr as (r & Hx & Hg & Hrn & Hfoot & Hback). rewrite Hx.
         assert (HI' : Inv n0 (start kd) (new_frame (VObj r)) st (ag m)).
         { split; [exact Hn|]. split; [destruct kd; reflexivity|]. unfold Core. cbn [new_frame seedv target].
-          split; [exact Hg|]. destruct kd; apply binds_nil. }
+          split; [exact Hrn|]. split; [exact Hg|]. destruct kd; apply binds_nil. }
         destruct (IH body (new_frame (VObj r)) st m (start kd) a1 n0 Ha1 Hag (fun _ => HI')) as (G1 & G2 & G3 & G4).
+        pose proof (exec_nxt_mono k body (new_frame (VObj r)) st) as Hmono.
         cbn [fst snd]. split; [exact G1|]. split.
         { intros HR. destruct (G2 HR) as (Gn & Gwf & Gc). unfold Core in Gc. rewrite G3 in Gc.
-          cbn [new_frame seedv target] in Gc. apply Hback; [exact Gn|apply Gc]. }
+          cbn [new_frame seedv target] in Gc. apply Hback; [exact Hmono|apply Gc]. }
         split; [reflexivity|]. intros o Ho Hne. apply G4; [exact Ho|]. cbn [new_frame seedv target].
         intros HF. inversion HF. subst o. exact (Hfoot r Ho Hne eq_refl).
       * (* f(...) without a seed: only generator-free functions *)
@@ -384,6 +459,14 @@ Proof.
         cbn [fst snd]. split; [exact H1|]. split.
         { intros _. rewrite H4. eapply Inv_heap_irrel; [exact H2|exact H3|]. exact (conj Hn (conj Hwf Hcore)). }
         split; [reflexivity|]. intros o _ _. rewrite H2. reflexivity.
+      * (* f(..., seed=<int drawn from the rng>): the callee runs on a fresh sub-stream *)
+        destruct (mem x (snd a)) eqn:Hm; [|discriminate].
+        destruct (lookup P f) as [[kd body]|] eqn:El; [|discriminate]. inversion Hc; subst a'.
+        exact (sub_call k IH f kd body fr st m a n0 El Hag Est Ham Hn Hwf Hcore).
+      * (* f(..., seed=<int computed from the arguments>) while the raw seed is unused *)
+        destruct (fst a) eqn:Hu; [discriminate|].
+        destruct (lookup P f) as [[kd body]|] eqn:El; [|discriminate]. inversion Hc; subst a'.
+        exact (sub_call k IH f kd body fr st m a n0 El Hag Est Ham Hn (fun _ => Hwf eq_refl) Hcore).
     + (* Seq *)
       destruct (check P c1 a) as [a1|] eqn:E1; [|discriminate]. cbn zeta.
       destruct (IH c1 fr st m a a1 n0 E1 Hag (fun _ => conj Hn (conj Hwf Hcore))) as (G1 & G2 & G3 & G4).
@@ -451,16 +534,20 @@ Variable P : program.
 Hypothesis Hsafe : prog_safe P = true.
 
 Notation run := (run_fn gstate next rs_new py_fallback rs_new32 decide P).
-Notation aexec := (aexec gstate next decide P).
+Notation aexec := (aexec gstate next rs_new py_fallback rs_new32 decide P).
 Notation stream_of := (stream_of gstate rs_new py_fallback rs_new32).
 Notation state := (state gstate).
 
-Lemma Inv_init : forall k v (st : state), v <> VBad ->
+(* the object a seed value denotes exists in the heap (objects below [nxt] are allocated) *)
+Definition wf_seed (v : value) (st : state) : Prop :=
+  match target v with Some r => r < nxt st | None => True end.
+
+Lemma Inv_init : forall k v (st : state), v <> VBad -> wf_seed v st ->
   Inv gstate rs_new py_fallback rs_new32 (nxt st) (start k) (new_frame v) st (stream_of v st).
 Proof.
-  intros k v st Hv. split; [apply le_n|]. split; [destruct k; reflexivity|].
-  unfold Core. cbn [new_frame seedv].
-  destruct v; cbn [target stream_of]; try (split; [reflexivity|destruct k; apply binds_nil]).
+  intros k v st Hv Hw. split; [apply le_n|]. split; [destruct k; reflexivity|].
+  unfold Core. cbn [new_frame seedv]. unfold wf_seed in Hw.
+  destruct v; cbn [target stream_of] in *; try (split; [exact Hw|]; split; [reflexivity|destruct k; apply binds_nil]).
   - destruct k; cbn [start fst snd]; [reflexivity|left; reflexivity].
   - contradiction Hv; reflexivity.
 Qed.
@@ -468,49 +555,52 @@ Qed.
 (* a checked function behaves like the reference machine on the stream its seed denotes, and
    touches no generator object that existed before the call except the one its seed denotes *)
 Lemma run_refines : forall fuel f k c v (st : state),
-  lookup P f = Some (k, c) -> v <> VBad ->
+  lookup P f = Some (k, c) -> v <> VBad -> wf_seed v st ->
   observable (run fuel f v st) =
     (ahist (aexec fuel c (mkA (stream_of v st) (hist st) (status st))),
      astatus (aexec fuel c (mkA (stream_of v st) (hist st) (status st)))) /\
   (forall o, o < nxt st -> target v <> Some o -> heap (run fuel f v st) o = heap st o).
 Proof.
-  intros fuel f k c v st Hl Hv. unfold run_fn. rewrite Hl.
+  intros fuel f k c v st Hl Hv Hw. unfold run_fn. rewrite Hl.
   destruct (all_safe_checked P Hsafe f k c Hl) as [a' Ha'].
   pose proof (exec_refines gstate next rs_new py_fallback rs_new32 decide P (all_safe_checked P Hsafe)
                 fuel c (new_frame v) st (mkA (stream_of v st) (hist st) (status st)) (start k) a' (nxt st) Ha'
-                (conj eq_refl eq_refl) (fun _ => Inv_init k v st Hv)) as (G1 & _ & _ & G4).
+                (conj eq_refl eq_refl) (fun _ => Inv_init k v st Hv Hw)) as (G1 & _ & _ & G4).
   split; [|exact G4]. destruct G1 as [G1 G1']. unfold observable. rewrite G1, G1'. reflexivity.
 Qed.
 
 (* two calls whose seeds denote the same stream are indistinguishable, whatever else differs
-   (the global generators, the other objects, the allocation counter) *)
+   (the global generators, the environment, the other objects, the allocation counter) *)
 Lemma run_obs_eq : forall fuel f v1 v2 (st1 st2 : state),
-  v1 <> VBad -> v2 <> VBad ->
+  v1 <> VBad -> v2 <> VBad -> wf_seed v1 st1 -> wf_seed v2 st2 ->
   hist st1 = hist st2 -> status st1 = status st2 ->
   stream_of v1 st1 = stream_of v2 st2 ->
   observable (run fuel f v1 st1) = observable (run fuel f v2 st2).
 Proof.
-  intros fuel f v1 v2 st1 st2 H1 H2 Hh Hs Hg.
+  intros fuel f v1 v2 st1 st2 H1 H2 W1 W2 Hh Hs Hg.
   destruct (lookup P f) as [[k c]|] eqn:Hl.
-  - destruct (run_refines fuel f k c v1 st1 Hl H1) as [E1 _].
-    destruct (run_refines fuel f k c v2 st2 Hl H2) as [E2 _].
+  - destruct (run_refines fuel f k c v1 st1 Hl H1 W1) as [E1 _].
+    destruct (run_refines fuel f k c v2 st2 Hl H2 W2) as [E2 _].
     rewrite E1, E2, Hh, Hs, Hg. reflexivity.
   - unfold run_fn, observable. rewrite Hl. cbn. rewrite Hh. reflexivity.
 Qed.
 
 Lemma run_footprint : forall fuel f v (st : state) o,
-  v <> VBad -> o < nxt st -> target v <> Some o -> heap (run fuel f v st) o = heap st o.
+  v <> VBad -> wf_seed v st -> o < nxt st -> target v <> Some o -> heap (run fuel f v st) o = heap st o.
 Proof.
-  intros fuel f v st o Hv Ho Hne. destruct (lookup P f) as [[k c]|] eqn:Hl.
-  - destruct (run_refines fuel f k c v st Hl Hv) as [_ E]. apply E; assumption.
+  intros fuel f v st o Hv Hw Ho Hne. destruct (lookup P f) as [[k c]|] eqn:Hl.
+  - destruct (run_refines fuel f k c v st Hl Hv Hw) as [_ E]. apply E; assumption.
   - unfold run_fn. rewrite Hl. reflexivity.
 Qed.
 
 End Sound.
 
-(* seeds a caller can pass *)
-Definition seed_given (v : value) : Prop := (exists s, v = VInt s) \/ (exists o, v = VObj o /\ 2 <= o).
+(* seeds a caller can pass: a number, or one of the caller's own RandomState instances (objects 0, 1, 2 are
+   numpy's global generator, Python's, and the environment) *)
+Definition seed_given (v : value) : Prop := (exists s, v = VInt s) \/ (exists o, v = VObj o /\ 3 <= o).
 
+(* [nxt st] is the allocation counter: objects below it exist.  [3 <= nxt st]: the three reserved objects exist;
+   [o < nxt st]: the caller's RandomState exists. *)
 Theorem seed_safe_sound :
   forall (gstate : Type) (next : gstate -> nat -> nat * gstate)
          (rs_new : nat -> option gstate) (py_fallback : nat -> nat) (rs_new32 : nat -> gstate)
@@ -520,48 +610,50 @@ Theorem seed_safe_sound :
   let run := run_fn gstate next rs_new py_fallback rs_new32 (D args) P fuel f in
   let fresh := mk gstate rs_new py_fallback rs_new32 in
   (* (1) with a seed, numpy's global generator (object 0) and Python's (object 1) are left as found *)
-  (forall v st, seed_given v -> 2 <= nxt st ->
+  (forall v st, seed_given v -> 3 <= nxt st -> wf_seed gstate v st ->
      heap (run v st) 0 = heap st 0 /\ heap (run v st) 1 = heap st 1) /\
   (* (2) same arguments + same seed => same draws, decisions and outcome, whatever the global
-         generators and the rest of the heap contain *)
+         generators, the environment (object 2) and the rest of the heap contain *)
   (forall s st1 st2, hist st1 = hist st2 -> status st1 = status st2 ->
      observable (run (VInt s) st1) = observable (run (VInt s) st2)) /\
-  (forall o st1 st2, hist st1 = hist st2 -> status st1 = status st2 -> heap st1 o = heap st2 o ->
+  (forall o st1 st2, hist st1 = hist st2 -> status st1 = status st2 -> o < nxt st1 -> o < nxt st2 ->
+     heap st1 o = heap st2 o ->
      observable (run (VObj o) st1) = observable (run (VObj o) st2)) /\
   (* (3) an integer seed and a RandomState constructed from it are indistinguishable *)
-  (forall s o st1 st2, hist st1 = hist st2 -> status st1 = status st2 -> heap st2 o = fresh s ->
+  (forall s o st1 st2, hist st1 = hist st2 -> status st1 = status st2 -> o < nxt st2 -> heap st2 o = fresh s ->
      observable (run (VInt s) st1) = observable (run (VObj o) st2)) /\
   (* (4) without a seed the outcome is a function of the arguments and numpy's global generator
          only, and Python's generator is not touched *)
-  (forall st1 st2, hist st1 = hist st2 -> status st1 = status st2 -> heap st1 0 = heap st2 0 ->
+  (forall st1 st2, hist st1 = hist st2 -> status st1 = status st2 -> 3 <= nxt st1 -> 3 <= nxt st2 ->
+     heap st1 0 = heap st2 0 ->
      observable (run VNone st1) = observable (run VNone st2)) /\
-  (forall st, 2 <= nxt st -> heap (run VNone st) 1 = heap st 1).
+  (forall st, 3 <= nxt st -> heap (run VNone st) 1 = heap st 1).
 Proof.
   intros gstate next rs_new py_fallback rs_new32 A D P Hsafe f args fuel run fresh. unfold run, fresh.
   split; [|split; [|split; [|split; [|split]]]].
-  - intros v st Hv Hn. split; apply (run_footprint gstate next rs_new py_fallback rs_new32 (D args) P Hsafe);
-      try lia; destruct Hv as [[s ->]|[o [-> Ho]]]; cbn; try discriminate; intros HF; inversion HF; lia.
+  - intros v st Hv Hn Hw. split; apply (run_footprint gstate next rs_new py_fallback rs_new32 (D args) P Hsafe);
+      try exact Hw; try lia; destruct Hv as [[s ->]|[o [-> Ho]]]; cbn; try discriminate; intros HF; inversion HF; lia.
   - intros s st1 st2 Hh Hs. apply (run_obs_eq gstate next rs_new py_fallback rs_new32 (D args) P Hsafe);
+      try discriminate; try exact I; auto.
+  - intros o st1 st2 Hh Hs Ho1 Ho2 Hg. apply (run_obs_eq gstate next rs_new py_fallback rs_new32 (D args) P Hsafe);
       try discriminate; auto.
-  - intros o st1 st2 Hh Hs Hg. apply (run_obs_eq gstate next rs_new py_fallback rs_new32 (D args) P Hsafe);
-      try discriminate; auto.
-  - intros s o st1 st2 Hh Hs Hg. apply (run_obs_eq gstate next rs_new py_fallback rs_new32 (D args) P Hsafe);
-      try discriminate; auto.
-  - intros st1 st2 Hh Hs Hg. apply (run_obs_eq gstate next rs_new py_fallback rs_new32 (D args) P Hsafe);
-      try discriminate; auto.
+  - intros s o st1 st2 Hh Hs Ho Hg. apply (run_obs_eq gstate next rs_new py_fallback rs_new32 (D args) P Hsafe);
+      try discriminate; try exact I; auto.
+  - intros st1 st2 Hh Hs Hn1 Hn2 Hg. apply (run_obs_eq gstate next rs_new py_fallback rs_new32 (D args) P Hsafe);
+      try discriminate; unfold wf_seed; cbn [target]; try lia; auto.
   - intros st Hn. apply (run_footprint gstate next rs_new py_fallback rs_new32 (D args) P Hsafe);
-      try lia; cbn; discriminate.
+      try lia; unfold wf_seed; cbn; try lia; discriminate.
 Qed.
 
 (* ------------------------------------------------------------------ non-vacuity and refutations
    A concrete toy generator: the state is a counter, a draw returns it and increments it;
    RandomState(s) starts at 100*s.  Object o of the initial heap holds the counter 10*o
-   (object 0 = numpy's global, 1 = Python's); object 2 is a caller's RandomState(7). *)
+   (object 0 = numpy's global, 1 = Python's, 2 = the environment); object 3 is a caller's RandomState(7). *)
 Module Toy.
 Definition tnext (g p : nat) : nat * nat := (g, S g).
 Definition trs (s : nat) : option nat := Some (100 * s).
-Definition st0 : state nat := mkState (fun o => if Nat.eqb o 2 then 700 else 10 * o) 3 [] Running.
-Definition st0' : state nat := mkState (fun o => if Nat.eqb o 2 then 700 else 10 * o + 5) 9 [] Running.
+Definition st0 : state nat := mkState (fun o => if Nat.eqb o 3 then 700 else 10 * o) 4 [] Running.
+Definition st0' : state nat := mkState (fun o => if Nat.eqb o 3 then 700 else 10 * o + 5) 9 [] Running.
 (* an oracle that depends on the history only: alternate while the history is short, then stop *)
 Definition dec (h : list ev) : nat :=
   if Nat.ltb (List.length h) 12 then (if Nat.even (List.length h) then 1 else 0) else 0.
@@ -584,7 +676,7 @@ Example good_nonvacuous :
   observable (trun good 50 "randmio" (VInt 7) st0)
     = ([EDec 0; EDec 1; EDraw 702; EDec 1; EDec 0; EDraw 701; EDec 0; EDraw 700; EDec 0; EDec 1; EDec 0; EDec 1], Running)
   /\ observable (trun good 50 "randmio" (VInt 7) st0') = observable (trun good 50 "randmio" (VInt 7) st0)
-  /\ observable (trun good 50 "randmio" (VObj 2) st0) = observable (trun good 50 "randmio" (VInt 7) st0)
+  /\ observable (trun good 50 "randmio" (VObj 3) st0) = observable (trun good 50 "randmio" (VInt 7) st0)
   /\ heap (trun good 50 "randmio" (VInt 7) st0) 0 = 0.
 Proof. vm_compute. repeat split. Qed.
 
@@ -605,7 +697,7 @@ Definition reseed : program :=
 Example reseed_rejected : seed_safe reseed "f" = false /\ seed_safe reseed "g" = true.
 Proof. vm_compute. split; reflexivity. Qed.
 Example reseed_refuted :
-  observable (trun reseed 50 "f" (VInt 7) st0) <> observable (trun reseed 50 "f" (VObj 2) st0).
+  observable (trun reseed 50 "f" (VInt 7) st0) <> observable (trun reseed 50 "f" (VObj 3) st0).
 Proof. vm_compute. discriminate. Qed.
 
 (* UNSAFE 3: a seeded routine calling a drawing routine without forwarding anything:
@@ -618,4 +710,49 @@ Proof. vm_compute. reflexivity. Qed.
 Example forgot_refuted :
   observable (trun forgot 50 "f" (VInt 7) st0) <> observable (trun forgot 50 "f" (VInt 7) st0').
 Proof. vm_compute. discriminate. Qed.
+
+(* the shape of bct.nbs_parallel: seeds for the tasks are drawn from THE rng, every task starts its own
+   generator from its number ([perm] falls back to a number computed from its arguments when handed None:
+   the rest of its body is the function [perm_rest]) *)
+Definition par : program :=
+  [ ("perm_rest", (Seeded, Seq (GetRng "rng" ESeed) (Choice (DrawLocal "rng") (Seq (DrawLocal "rng") (DrawLocal "rng")))));
+    ("perm", (Seeded, Choice (Call "perm_rest" ESeed) (Call "perm_rest" EComputed)));
+    ("nbs_par", (Seeded, Seq (GetRng "t" ESeed) (Seq (DrawLocal "t") (Loop (Call "perm" (EDrawn "t")))))) ].
+
+Example par_safe : prog_safe par = true.
+Proof. vm_compute. reflexivity. Qed.
+
+(* two tasks: the first starts RandomState(0) (draws 0, 1), the second RandomState(4) (draws 400, 401: [perm]'s
+   fall-back branch); the caller's stream 700.. is consumed once, before the loop; identical in another world,
+   identical for the object RandomState(7), which is advanced by exactly that one draw; the global generator
+   is untouched *)
+Definition dec2 (h : list ev) : nat := nth (List.length h) [1;0;1;0;1;2;0;2;0;1;3;4;0;7;0;0;0;0] 0.
+Definition trun2 := run_fn nat tnext trs (fun s => s) (fun s => s) dec2.
+Example par_nonvacuous :
+  observable (trun2 par 50 "nbs_par" (VInt 7) st0)
+    = ([EDec 0; EDraw 401; EDec 0; EDraw 400; EDec 0; EDec 4; EDec 3; EDec 1; EDraw 1; EDec 2;
+        EDraw 0; EDec 2; EDec 1; EDec 0; EDec 1; EDraw 700; EDec 1], Running)
+  /\ observable (trun2 par 50 "nbs_par" (VInt 7) st0') = observable (trun2 par 50 "nbs_par" (VInt 7) st0)
+  /\ observable (trun2 par 50 "nbs_par" (VObj 3) st0) = observable (trun2 par 50 "nbs_par" (VInt 7) st0)
+  /\ heap (trun2 par 50 "nbs_par" (VInt 7) st0) 0 = 0 /\ heap (trun2 par 50 "nbs_par" (VObj 3) st0) 3 = 701.
+Proof. vm_compute. repeat split. Qed.
+
+(* UNSAFE 4: a value read from the environment (time.time(), hash of a str, np.empty, rng.seed()):
+   clause (2) fails (two runs with equal arguments and seed differ).  Rejected. *)
+Definition nondet : program :=
+  [ ("f", (Seeded, Seq (GetRng "rng" ESeed) (Seq (DrawLocal "rng") NonDet))) ].
+Example nondet_rejected : seed_safe nondet "f" = false.
+Proof. vm_compute. reflexivity. Qed.
+Example nondet_refuted :
+  observable (trun nondet 50 "f" (VInt 7) st0) <> observable (trun nondet 50 "f" (VInt 7) st0').
+Proof. vm_compute. discriminate. Qed.
+
+(* UNSAFE 5: a sub-stream started from a computed number inside a routine WITHOUT a seed is not what [Pure]
+   promises (the routine allocates a generator); a computed seed after the raw seed was consumed and no rng
+   name is in scope is rejected as well.  (Rejections only: these are restrictions of the checker.) *)
+Definition sub_in_pure : program :=
+  [ ("g", (Seeded, Seq (GetRng "rng" ESeed) (DrawLocal "rng")));
+    ("f", (Pure, Call "g" EComputed)) ].
+Example sub_in_pure_rejected : seed_safe sub_in_pure "f" = false.
+Proof. vm_compute. reflexivity. Qed.
 End Toy.
